@@ -9,7 +9,9 @@ def run(chk):
                 "(CreateDisclosureProofBuilder + BuildProofList) is run on alternating 1024-bit keys for disclosure and signature sessions; the harness "
                 "checks verification (ProofD.Verify and ProofList.Verify), that a_disclosed/a_responses are exactly the chosen set / its complement with "
                 "true values, that neither the serialised proof nor the timestamp contribution contains a hidden value (byte search for values >= 64 bits; "
-                "zero entries for hidden indices), and that the proof does not verify for the other session kind. "
+                "zero entries for hidden indices), and that the proof does not verify for the other session kind; credentials with a non-revocation witness are also shown through the wallet's "
+                "normal flow (commitment prepared in the background, somebody else revoked, witness updated, proof from the REFRESHED commitment) and every group element of the "
+                "non-revocation part must be a reduced residue that is no integer multiple of the holder's witness value (D47). "
                 "Plus Builder.tla: the DisclosureProofBuilder life cycle as the caller sees it - the list of indices in ANY order and with repetitions (all lists of "
                 "<= 3 (quick) / 4 (thorough) indices), TimestampRequestContributions asked for before the commitment, between commitment and proof, and after the proof "
                 "(every placement); invariants Minimal, Exact, action property TRCStable. Replay: every complete life cycle is driven through the real builder "
